@@ -280,10 +280,10 @@ func runHistory(h *History) *RunReport {
 	}
 	salt, pol := h.MapSalt, h.MapPolicy
 	docFor := func(op *HOp) interface{} {
-		if h.Mode == "shared" {
+		if h.Mode == "shared" && h.Docs[op.Doc].Kind == "json" {
 			return deepCopy(shadow[op.Doc])
 		}
-		return h.Docs[op.Doc].Build()
+		return h.Docs[op.Doc].Build() // (typed documents are never edited by the caller)
 	}
 	for i := range h.Ops {
 		op := &h.Ops[i]
@@ -420,11 +420,13 @@ func runHistory(h *History) *RunReport {
 				hstats.failedOps++
 			}
 			r := &refs[i]
+			docChanged := ""
 			if h.Mode == "shared" && !observeEqual(live[op.Doc], model[op.Doc]) {
-				// the call modified the caller's document: that is C06's finding, and
-				// from here on this history is not about the compiled expression
+				// the call (or an earlier one) modified the caller's document. That is C06's
+				// finding first, but the caller still holds "the same document": the answers
+				// are compared with the stateless reference on what the caller put there
 				hstats.sharedDocEdited++
-				return rep
+				docChanged = " (the shared document no longer equals what the caller left in it: a Search call wrote to it)"
 			}
 			// (a step-cap outcome is a budget artefact: Compile and Search are budgeted
 			// separately, the one-shot call as one operation)
@@ -448,7 +450,7 @@ func runHistory(h *History) *RunReport {
 			}
 			if !same {
 				add(Violation{Prop: "C13", Class: class, Sig: op.Kind,
-					Detail: fmt.Sprintf("op %d of the history: %s on doc%d returned %s; a freshly created object returns %s", i, what, op.Doc, got.String(), want.String())})
+					Detail: fmt.Sprintf("op %d of the history: %s on doc%d returned %s; a freshly created object returns %s", i, what, op.Doc, got.String(), want.String()) + docChanged})
 			}
 			if h.Mode == "fresh" && got.Kind == "value" {
 				earlier = append(earlier, kept{raw: raw, snap: got.Val, op: i})
@@ -664,7 +666,6 @@ func genHistory(master uint64, idx int) *History {
 			pool = append(pool, typedExprs[r.Intn(len(typedExprs))])
 		}
 		base = DocSpec{Kind: "typed", Name: typedDocNames[r.Intn(len(typedDocNames))], CapSeed: typedSeed(r)}
-		h.Mode = "fresh"
 	}
 	if r.Chance(1, 4) {
 		pool = append(pool, rawStringExprs[r.Intn(len(rawStringExprs))])
@@ -1083,7 +1084,7 @@ func histWorker(tier string, master uint64, from, to int, maxWall time.Duration,
 	st.Probes["object_reused_right_after_failed_operation"] = uint64(hstats.reuseAfterFail)
 	st.Probes["parser_reused_after_unterminated_raw_string_with_escaped_quote"] = uint64(hstats.dirtyBufCandidates)
 	st.Probes["order_free_expression_checked_across_two_map_orders"] = uint64(hstats.crossSalt)
-	st.Probes["history_dropped_because_search_modified_shared_doc"] = uint64(hstats.sharedDocEdited)
+	st.Probes["search_on_shared_doc_that_an_earlier_search_modified"] = uint64(hstats.sharedDocEdited)
 	st.Probes["compared_up_to_member_order_after_map_order_change"] = uint64(hstats.unorderedCompares)
 	st.Ops["operations"] = hstats.ops
 	return st
